@@ -8,19 +8,13 @@ import Optyx.Generated.PinsC05
 namespace Optyx.Props.PinsC05
 open Optyx.Generated.PinsC05
 
-/-- `extract_all_linear_coefficients` (analysis.py) -/
-theorem pin_analysis_extract_all_linear_coefficients_anchor : pin_analysis_extract_all_linear_coefficients = "12263a09e6ffedff" := rfl
-/-- `_try_extract_fast_binop` (analysis.py) -/
-theorem pin_analysis_try_extract_fast_binop_anchor : pin_analysis_try_extract_fast_binop = "9a441977d7cc69cd" := rfl
-/-- `_vector_is_aligned` (analysis.py) -/
-theorem pin_analysis_vector_is_aligned_anchor : pin_analysis_vector_is_aligned = "b6d6839e542cf6b0" := rfl
 /-- `extract_linear_coefficient` (analysis.py) -/
 theorem pin_analysis_extract_linear_coefficient_anchor : pin_analysis_extract_linear_coefficient = "8356a37b6239dea1" := rfl
 /-- `extract_constant_term` (analysis.py) -/
 theorem pin_analysis_extract_constant_term_anchor : pin_analysis_extract_constant_term = "56af33ef128b1672" := rfl
 
 /-- every function the model of C05 transcribes (and no translator covers) is the one it was read from -/
-theorem anchors : pin_analysis_extract_all_linear_coefficients = "12263a09e6ffedff" ∧ pin_analysis_try_extract_fast_binop = "9a441977d7cc69cd" ∧ pin_analysis_vector_is_aligned = "b6d6839e542cf6b0" ∧ pin_analysis_extract_linear_coefficient = "8356a37b6239dea1" ∧ pin_analysis_extract_constant_term = "56af33ef128b1672" :=
-  ⟨pin_analysis_extract_all_linear_coefficients_anchor, pin_analysis_try_extract_fast_binop_anchor, pin_analysis_vector_is_aligned_anchor, pin_analysis_extract_linear_coefficient_anchor, pin_analysis_extract_constant_term_anchor⟩
+theorem anchors : pin_analysis_extract_linear_coefficient = "8356a37b6239dea1" ∧ pin_analysis_extract_constant_term = "56af33ef128b1672" :=
+  ⟨pin_analysis_extract_linear_coefficient_anchor, pin_analysis_extract_constant_term_anchor⟩
 
 end Optyx.Props.PinsC05
